@@ -4,6 +4,8 @@ checks: any VIOLATION or CHECK-FAILED is a false alarm / brittleness of the chec
 import json, os, subprocess, sys
 sys.path.insert(0, '/verif')
 from mokalint.props import PROPERTIES
+sys.path.insert(0, '/verif/tools')
+from _runall import run_all
 only = sys.argv[1:]
 base = '/verif/refactors'
 res = {}
@@ -16,10 +18,9 @@ for d in sorted(os.listdir(base)):
         res[d] = 'PATCH-FAILS'; print(d, 'PATCH-FAILS'); continue
     alarms = []
     try:
-        for pid in sorted(PROPERTIES):
-            r = subprocess.run(['./check', pid], cwd='/verif', capture_output=True, text=True)
-            if r.returncode != 0:
-                lines = [l.strip() for l in r.stdout.splitlines() if l.startswith('  ') or 'CHECK-FAILED' in l]
+        for pid, (rc, lines_) in sorted(run_all().items()):
+            if rc != 0:
+                lines = [l.strip() for l in lines_ if l.startswith('  ') or 'CHECK-FAILED' in l]
                 alarms.append((pid, lines[:3]))
     finally:
         subprocess.run(['git', '-C', '/repo', 'checkout', '--', '.'])
